@@ -171,3 +171,162 @@ Definition pex_apply (av : list addr) (maxsz : N) (payload : bytes) : pex_out :=
       | _ => PexFault
       end
   end.
+
+(* ------------------------------------------------------------------ PeerList with PeerInfo entries
+   PeerList::insert_address and the existing-PeerInfo branch of PeerList::insert_available.  The multimap is keyed
+   by socket_address_key = (family, address), port excluded; at most one PeerInfo per key is ever created. *)
+Record pinfo := mkPi {
+  pi_key : addr;          (* port field unused *)
+  pi_lp : N;              (* listen_port() *)
+  pi_ap : N;              (* port of socket_address() *)
+  pi_conn : bool;         (* connection() != nullptr *)
+  pi_lh : N               (* last_handshake() *)
+}.
+
+Definition key_eqb (x y : addr) : bool :=
+  match x, y with
+  | A4 a _, A4 b _ => a =? b
+  | A6 a _, A6 b _ => a =? b
+  | _, _ => false
+  end.
+
+Fixpoint pi_find (x : addr) (ps : list pinfo) : option pinfo :=
+  match ps with
+  | [] => None
+  | p :: ps' => if key_eqb (pi_key p) x then Some p else pi_find x ps'
+  end.
+
+Fixpoint pi_set_ap (x : addr) (port : N) (ps : list pinfo) : list pinfo :=
+  match ps with
+  | [] => []
+  | p :: ps' => if key_eqb (pi_key p) x then mkPi (pi_key p) (pi_lp p) port (pi_conn p) (pi_lh p) :: ps'
+                else p :: pi_set_ap x port ps'
+  end.
+
+Definition u32 : N := 4294967296.
+
+(* peer_info->connection() != nullptr || peer_info->last_handshake() + 600 > uint32_t(cached_seconds) *)
+Definition pi_skips (now : N) (p : pinfo) : bool :=
+  pi_conn p || (now mod u32 <? (pi_lh p + 600) mod u32).
+
+(* the decision function the theorems of Proofs.v quantify over *)
+Definition skip_of (now : N) (ps : list pinfo) (x : addr) : bool :=
+  match pi_find x ps with Some p => pi_skips now p | None => false end.
+
+Fixpoint ia_loop_pi (now : N) (al : list addr) (av old : list addr) (maxsz : N) (inserted : N) (ps : list pinfo)
+  : list addr * N * list pinfo :=
+  match al with
+  | [] => (av, inserted, ps)
+  | x :: al' =>
+      if negb (alen av <? maxsz) then (av, inserted, ps)
+      else if (addr_port x =? 0) || addr_is_any x then ia_loop_pi now al' av old maxsz inserted ps
+      else
+        let old1 := find_less old x in
+        let unneeded := match old1 with e :: _ => negb (addr_ltb_addr e x) | [] => false end in
+        if unneeded then ia_loop_pi now al' av old1 maxsz inserted ps
+        else match pi_find x ps with
+             | Some p =>
+                 let ps' := if pi_lp p =? 0 then pi_set_ap x (addr_port x) ps else ps in
+                 if pi_skips now p then ia_loop_pi now al' av old1 maxsz inserted ps'
+                 else ia_loop_pi now al' (insert_unique av x) old1 maxsz (inserted + 1) ps'
+             | None => ia_loop_pi now al' (insert_unique av x) old1 maxsz (inserted + 1) ps
+             end
+  end.
+
+Definition insert_available_pi (now : N) (av : list addr) (maxsz : N) (ps : list pinfo) (al : list addr)
+  : list addr * N * list pinfo :=
+  if maxsz <=? alen av then (av, 0, ps) else ia_loop_pi now al av av maxsz 0 ps.
+
+(* PeerList::insert_address(sa, flags) *)
+Definition insert_address (av : list addr) (ps : list pinfo) (x : addr) (available : bool) : list addr * list pinfo :=
+  match pi_find x ps with
+  | Some _ => (av, ps)
+  | None =>
+      let av' := if available && negb (addr_port x =? 0) then insert_unique av x else av in
+      (av', ps ++ [mkPi x (addr_port x) (addr_port x) false 0])
+  end.
+
+Inductive pi_op :=
+| PiInsert (x : addr) (available : bool)
+| PiSet (x : addr) (conn : bool) (lh : N)       (* harness set-up of connection() / last_handshake() *)
+| PiNow (now : N)
+| PiList (op : pl_op).
+
+Record pi_state := mkPs { ps_av : list addr; ps_rets : list N; ps_pi : list pinfo; ps_now : N }.
+
+Fixpoint pi_update (x : addr) (conn : bool) (lh : N) (ps : list pinfo) : list pinfo :=
+  match ps with
+  | [] => []
+  | p :: ps' => if key_eqb (pi_key p) x then mkPi (pi_key p) (pi_lp p) (pi_ap p) conn lh :: ps'
+                else p :: pi_update x conn lh ps'
+  end.
+
+Definition pi_step (maxsz : N) (st : pres pi_state) (op : pi_op) : pres pi_state :=
+  match st with
+  | POk s =>
+      match op with
+      | PiInsert x available =>
+          let '(av', ps') := insert_address (ps_av s) (ps_pi s) x available in
+          POk (mkPs av' (ps_rets s) ps' (ps_now s))
+      | PiSet x conn lh => POk (mkPs (ps_av s) (ps_rets s) (pi_update x conn lh (ps_pi s)) (ps_now s))
+      | PiNow n => POk (mkPs (ps_av s) (ps_rets s) (ps_pi s) n)
+      | PiList lop =>
+          let run (parsed : pres (list addr)) (prep : list addr -> list addr) :=
+            match parsed with
+            | POk l => let '(av', r, ps') := insert_available_pi (ps_now s) (ps_av s) maxsz (ps_pi s) (prep l) in
+                       POk (mkPs av' (ps_rets s ++ [r]) ps' (ps_now s))
+            | PFault => PFault | POutOfFuel => POutOfFuel
+            end in
+          match lop with
+          | OpTracker c4 c6 => run (parse_both c4 c6) sort_and_unique
+          | OpPex c4 => match c4 with
+                        | [] => POk (mkPs (ps_av s) (ps_rets s ++ [1]) (ps_pi s) (ps_now s))
+                        | _ => run (parse_compact c4) sort_and_unique
+                        end
+          | OpBuffer c4 c6 => run (parse_both c4 c6) addr_sort
+          | OpRaw c4 c6 => run (parse_both c4 c6) (fun l => l)
+          end
+      end
+  | PFault => PFault | POutOfFuel => POutOfFuel
+  end.
+
+Definition pi_run (maxsz now : N) (ops : list pi_op) : pres pi_state :=
+  fold_left (pi_step maxsz) ops (POk (mkPs [] [] [] now)).
+
+(* ------------------------------------------------------------------ TrackerHttp with a second address family pending
+   (m_next_family): receive_failed / process_success when send_next_family() can still start another request *)
+Record hstate := mkHs {
+  h_ts : tstate;
+  h_next : bool;          (* m_next_family != AF_UNSPEC *)
+  h_last_ok : bool;       (* m_last_success *)
+  h_last_err : bytes      (* m_last_error_message *)
+}.
+
+Inductive hevent :=
+| HEv (e : tevent)
+| HRetry.                 (* no callback: the request was re-sent for the next family *)
+
+(* " /// " *)
+Definition m_sep : bytes := [32; 47; 47; 47; 32].
+
+(* one reply (announce events only, not scrape) *)
+Definition http_step (ih : bytes) (event : N) (h : hstate) (body : bytes) : hstate * hevent :=
+  let '(ts', e) := http_receive_done ih event body (h_ts h) in
+  match e with
+  | EvFailure msg =>
+      if h_next h then (mkHs ts' false false msg, HRetry)
+      else if h_last_ok h then (mkHs ts' false (h_last_ok h) (h_last_err h), HEv (EvSuccess []))
+      else match h_last_err h with
+           | [] => (mkHs ts' false (h_last_ok h) (h_last_err h), HEv (EvFailure msg))
+           | le => (mkHs ts' false (h_last_ok h) (h_last_err h), HEv (EvFailure (msg ++ m_sep ++ le)))
+           end
+  | EvSuccess l =>
+      if h_next h then (mkHs ts' false true [], HEv (EvNewPeers l))
+      else (mkHs ts' false (h_last_ok h) (h_last_err h), HEv (EvSuccess l))
+  | _ => (mkHs ts' (h_next h) (h_last_ok h) (h_last_err h), HEv e)
+  end.
+
+(* send_event on a host name that is not numeric: IPv4 first, IPv6 pending; then up to two replies *)
+Definition http_two_families (ih : bytes) (event : N) (bodies : list bytes) : hstate * list hevent :=
+  fold_left (fun st b => let '(h, evs) := st in let '(h', e) := http_step ih event h b in (h', evs ++ [e]))
+            bodies (mkHs tstate0 true false [], []).
